@@ -37,27 +37,67 @@ Proof.
   apply str_eqb_spec in He. split; assumption.
 Qed.
 
-Lemma path_of_assoc F nm : path_of F nm = (fam_mod F ++ [dot]) ++ nm.
-Proof. unfold path_of. rewrite <- app_assoc. reflexivity. Qed.
-
-Lemma import_obj_inv F cp o :
-  import_obj F cp = Some o -> exists nm, cp = path_of F nm /\ has_dot nm = false /\ lookup_name F nm = Some o.
+Lemma split_dot_nodot s : has_dot s = false -> split_dot s = (s, None).
 Proof.
-  unfold import_obj. destruct (strip_prefix (fam_mod F ++ [dot]) cp) as [nm|] eqn:E; [|discriminate].
-  destruct (has_dot nm) eqn:D; [discriminate|]. intro H.
-  exists nm. split; [|split; [exact D|exact H]].
-  rewrite path_of_assoc. apply strip_prefix_some. exact E.
+  unfold has_dot. induction s as [|c s IH]; [reflexivity|]. cbn [existsb split_dot].
+  destruct (N.eqb dot c) eqn:E1; [discriminate|]. cbn [orb]. intro Hs.
+  assert (E2 : N.eqb c dot = false) by (rewrite N.eqb_sym; exact E1).
+  rewrite E2, (IH Hs). reflexivity.
 Qed.
 
-Lemma import_obj_path F nm : has_dot nm = false -> import_obj F (path_of F nm) = lookup_name F nm.
+Lemma split_dot_app a b : has_dot a = false -> split_dot (a ++ [dot] ++ b) = (a, Some b).
 Proof.
-  intro D. unfold import_obj. rewrite path_of_assoc, strip_prefix_app, D. reflexivity.
+  unfold has_dot. induction a as [|c a IH].
+  - intros _. cbn [app split_dot]. rewrite N.eqb_refl. reflexivity.
+  - cbn [existsb]. destruct (N.eqb dot c) eqn:E1; [discriminate|]. cbn [orb]. intro Ha.
+    assert (E2 : N.eqb c dot = false) by (rewrite N.eqb_sym; exact E1).
+    change ((c :: a) ++ [dot] ++ b) with (c :: (a ++ [dot] ++ b)). cbn [split_dot]. rewrite E2, (IH Ha). reflexivity.
+Qed.
+
+Lemma path_of_has_dot F nm : has_dot (path_of F nm) = true.
+Proof.
+  unfold path_of. destruct (sub_of F nm); [destruct (aget nm (fam_exports F)) as [t|]; [destruct (str_eqb t nm)|]|];
+    rewrite !has_dot_app; simpl; rewrite ?orb_true_r; reflexivity.
 Qed.
 
 Lemma import_obj_has_dot F cp o : import_obj F cp = Some o -> has_dot cp = true.
 Proof.
-  intro H. apply import_obj_inv in H. destruct H as [nm [-> _]].
-  unfold path_of. rewrite !has_dot_app. simpl. rewrite orb_true_r. reflexivity.
+  unfold import_obj. destruct (strip_prefix (fam_mod F ++ [dot]) cp) as [rest|] eqn:E; [|discriminate].
+  intros _. apply strip_prefix_some in E. subst cp. rewrite !has_dot_app. simpl. rewrite orb_true_r. reflexivity.
+Qed.
+
+(* whatever a path imports to is one of the family's named objects *)
+Lemma import_obj_lookup F cp o : import_obj F cp = Some o -> exists nm, lookup_name F nm = Some o.
+Proof.
+  unfold import_obj. destruct (strip_prefix (fam_mod F ++ [dot]) cp) as [rest|]; [|discriminate].
+  destruct (split_dot rest) as [a [nm|]].
+  - destruct (has_dot nm); [discriminate|]. destruct (sub_of F nm) as [s|]; [|discriminate].
+    destruct (str_eqb s a); [|discriminate]. eauto.
+  - unfold lookup_pkg. destruct (sub_of F a).
+    + destruct (aget a (fam_exports F)) as [t|]; [eauto|discriminate].
+    + destruct (lookup_name F a) eqn:L; [intro H; inversion H; subst; eauto|].
+      destruct (aget a (fam_exports F)) as [t|]; [eauto|discriminate].
+Qed.
+
+(* the canonical path of a named object imports to that object *)
+Lemma import_obj_path F nm o :
+  has_dot nm = false -> (forall s, sub_of F nm = Some s -> has_dot s = false) ->
+  lookup_name F nm = Some o -> import_obj F (path_of F nm) = Some o.
+Proof.
+  intros D Ds L. unfold import_obj, path_of.
+  destruct (sub_of F nm) as [s|] eqn:Es.
+  - assert (Long : import_obj F (fam_mod F ++ [dot] ++ s ++ [dot] ++ nm) = Some o).
+    { unfold import_obj. replace (fam_mod F ++ [dot] ++ s ++ [dot] ++ nm) with ((fam_mod F ++ [dot]) ++ (s ++ [dot] ++ nm))
+        by (rewrite <- app_assoc; reflexivity).
+      rewrite strip_prefix_app, (split_dot_app s nm (Ds s eq_refl)), D, Es, str_eqb_refl. exact L. }
+    unfold import_obj in Long.
+    destruct (aget nm (fam_exports F)) as [t|] eqn:Ee; [|exact Long].
+    destruct (str_eqb t nm) eqn:Et; [|exact Long].
+    apply str_eqb_spec in Et. subst t.
+    replace (fam_mod F ++ [dot] ++ nm) with ((fam_mod F ++ [dot]) ++ nm) by (rewrite <- app_assoc; reflexivity).
+    rewrite strip_prefix_app, (split_dot_nodot nm D). unfold lookup_pkg. rewrite Es, Ee. exact L.
+  - replace (fam_mod F ++ [dot] ++ nm) with ((fam_mod F ++ [dot]) ++ nm) by (rewrite <- app_assoc; reflexivity).
+    rewrite strip_prefix_app, (split_dot_nodot nm D). unfold lookup_pkg. rewrite Es, L. reflexivity.
 Qed.
 
 (* ordered dicts *)
@@ -110,21 +150,43 @@ Lemma bind_Ok {A B} (r : res A) (f : A -> res B) b :
   bind r f = Ok b -> exists a, r = Ok a /\ f a = Ok b.
 Proof. destruct r as [a|e]; simpl; [eauto|discriminate]. Qed.
 
+Lemma bind_ret {A B} (a : A) (f : A -> res B) : bind (Ok a) f = f a.
+Proof. reflexivity. Qed.
+
 (* ---------- well-formed families --------------------------------------------------------------- *)
 Definition ps_wf (ps : list param) : Prop :=
   forallb default_ok ps = true /\ nodup_str (map p_name ps) = true.
 
 Lemma fam_wf_cls F k : fam_wf F = true -> In k (fam_classes F) -> ps_wf (c_params k).
 Proof.
-  unfold fam_wf. rewrite !andb_true_iff. intros [[[H _] _] _] Hin.
+  unfold fam_wf, fam_wf_with. rewrite !andb_true_iff. intros [[[[H _] _] _] _] Hin.
   rewrite forallb_forall in H. specialize (H k Hin). apply andb_true_iff in H. exact H.
 Qed.
 
 Lemma fam_wf_fun F f : fam_wf F = true -> In f (fam_funcs F) -> ps_wf (f_params f) /\ func_ok F f = true.
 Proof.
-  unfold fam_wf. rewrite !andb_true_iff. intros [[[_ H] _] _] Hin.
+  unfold fam_wf, fam_wf_with. rewrite !andb_true_iff. intros [[[[_ H] _] _] _] Hin.
   rewrite forallb_forall in H. specialize (H f Hin). rewrite !andb_true_iff in H.
   destruct H as [[H1 H2] H3]. split; [split|]; assumption.
+Qed.
+
+(* names of classes / functions and of submodules are identifiers *)
+Lemma fam_wf_nodot F : fam_wf F = true ->
+  (forall k, In k (fam_classes F) -> has_dot (c_name k) = false) /\
+  (forall f, In f (fam_funcs F) -> has_dot (f_name f) = false) /\
+  (forall nm s, sub_of F nm = Some s -> has_dot s = false).
+Proof.
+  unfold fam_wf, fam_wf_with, layout_wf. rewrite !andb_true_iff. intros [_ [[[[H _] _] _] _]].
+  rewrite forallb_forall in H.
+  assert (G : forall n, In n (map c_name (fam_classes F) ++ map f_name (fam_funcs F) ++ fam_consts F
+                             ++ map snd (fam_subs F) ++ map fst (fam_exports F)) -> has_dot n = false).
+  { intros n Hn. apply negb_true_iff. apply H. exact Hn. }
+  split; [|split].
+  - intros k Hk. apply G. apply in_or_app. left. apply in_map. exact Hk.
+  - intros f Hf. apply G. apply in_or_app. right. apply in_or_app. left. apply in_map. exact Hf.
+  - intros nm s Hs. apply G. unfold sub_of in Hs. apply aget_In in Hs.
+    apply in_or_app. right. apply in_or_app. right. apply in_or_app. right. apply in_or_app. left.
+    apply in_map_iff. exists (nm, s). split; [reflexivity|exact Hs].
 Qed.
 
 Lemma find_param_self ps p :
@@ -141,31 +203,47 @@ Proof.
     + apply IH; assumption.
 Qed.
 
-(* what the import check establishes *)
+Lemma lookup_cls F nm k : lookup_name F nm = Some (ICls k) -> find_cls F nm = Some k.
+Proof.
+  unfold lookup_name. destruct (find_cls F nm); [congruence|].
+  destruct (find_fun F nm); [discriminate|]. destruct (mem_str nm (fam_consts F)); discriminate.
+Qed.
+
+Lemma lookup_fun F nm f : lookup_name F nm = Some (IFun f) -> find_fun F nm = Some f.
+Proof.
+  unfold lookup_name. destruct (find_cls F nm); [discriminate|].
+  destruct (find_fun F nm); [congruence|]. destruct (mem_str nm (fam_consts F)); discriminate.
+Qed.
+
+Lemma lookup_name_cls F k : find_cls F (c_name k) = Some k -> lookup_name F (c_name k) = Some (ICls k).
+Proof. unfold lookup_name. intros ->. reflexivity. Qed.
+
+(* what the import check establishes: the parameters are those of the imported callable, which is (returns) a
+   subclass of the declared type; the normalised path cpn imports to the same callable *)
 Lemma check_import_ok F base cp cpn ps :
   fam_wf F = true -> check_import F base cp = Ok (cpn, ps) ->
-  cpn = cp /\ ps_wf ps /\
-  exists k, target F cp = Some (k, ps) /\ is_subclass F (c_name k) base = true.
+  ps_wf ps /\
+  exists k, target F cp = Some (k, ps) /\ target F cpn = Some (k, ps) /\ is_subclass F (c_name k) base = true.
 Proof.
-  intros Hwf. unfold check_import, target.
+  intros Hwf. destruct (fam_wf_nodot F Hwf) as [Dc [Df Ds]]. unfold check_import.
   destruct (import_obj F cp) as [[k|f|]|] eqn:E; try discriminate.
-  - destruct (is_subclass F (c_name k) base) eqn:S; [|discriminate]. intro H. inversion H; subst.
-    apply import_obj_inv in E. destruct E as [nm [-> [D L]]].
-    unfold lookup_name in L. destruct (find_cls F nm) as [k'|] eqn:Fc.
-    + inversion L; subst k'. apply find_cls_some in Fc. destruct Fc as [Hn Hin].
-      split; [rewrite Hn; reflexivity|]. split; [eapply fam_wf_cls; eassumption|].
-      exists k. split; [reflexivity|exact S].
-    + destruct (find_fun F nm); [discriminate|]. destruct (mem_str nm (fam_consts F)); discriminate.
-  - destruct (is_subclass F (f_ret f) base) eqn:S; [|discriminate]. intro H. inversion H; subst.
-    apply import_obj_inv in E. destruct E as [nm [-> [D L]]].
-    unfold lookup_name in L. destruct (find_cls F nm) as [k'|] eqn:Fc; [discriminate|].
-    destruct (find_fun F nm) as [f'|] eqn:Ff.
-    + inversion L; subst f'. apply find_fun_some in Ff. destruct Ff as [Hn Hin].
-      destruct (fam_wf_fun F f Hwf Hin) as [Hps Hok].
-      split; [rewrite Hn; reflexivity|]. split; [exact Hps|].
-      unfold func_ok in Hok. destruct (find_cls F (f_ret f)) as [k|] eqn:Fr; [|discriminate].
-      exists k. split; [reflexivity|]. apply find_cls_some in Fr. destruct Fr as [-> _]. exact S.
-    + destruct (mem_str nm (fam_consts F)); discriminate.
+  - destruct (is_subclass F (c_name k) base) eqn:S; [|discriminate]. intro H. inversion H; subst. clear H.
+    destruct (import_obj_lookup _ _ _ E) as [nm L]. apply lookup_cls in L.
+    destruct (find_cls_some _ _ _ L) as [Hn Hin]. subst nm.
+    split; [eapply fam_wf_cls; eassumption|]. exists k.
+    assert (P : import_obj F (path_of F (c_name k)) = Some (ICls k)).
+    { apply import_obj_path; [apply Dc; exact Hin|apply Ds|apply lookup_name_cls; exact L]. }
+    unfold target. rewrite E, P. repeat split. exact S.
+  - destruct (is_subclass F (f_ret f) base) eqn:S; [|discriminate]. intro H. inversion H; subst. clear H.
+    destruct (import_obj_lookup _ _ _ E) as [nm L]. pose proof (lookup_fun _ _ _ L) as Ff.
+    destruct (find_fun_some _ _ _ Ff) as [Hn Hin]. subst nm.
+    destruct (fam_wf_fun F f Hwf Hin) as [Hps Hok]. split; [exact Hps|].
+    unfold func_ok in Hok. destruct (find_cls F (f_ret f)) as [k|] eqn:Fr; [|discriminate].
+    exists k.
+    assert (P : import_obj F (path_of F (f_name f)) = Some (IFun f)).
+    { apply import_obj_path; [apply Df; exact Hin|apply Ds|exact L]. }
+    unfold target. rewrite E, P, Fr. repeat split.
+    apply find_cls_some in Fr. destruct Fr as [-> _]. exact S.
 Qed.
 
 (* ---------- Part I: accepted => valid ----------------------------------------------------------- *)
@@ -226,6 +304,20 @@ Proof. destruct o as [[]|]; simpl; tauto. Qed.
 
 Local Arguments bind : simpl never.
 
+(* in the families of the theorems no default is a class spec: the two default-spec rules are inert *)
+Lemma prev_or_default_wf m p prev : default_ok p = true -> prev_or_default m p prev = prev.
+Proof.
+  unfold prev_or_default, default_ok. destruct (p_ty p); destruct (p_def p) as [[]|]; try reflexivity; discriminate.
+Qed.
+
+Lemma defaults_of_rec_wf rec m ps :
+  forallb default_ok ps = true -> defaults_of_rec rec m ps = Ok (defaults_of ps).
+Proof.
+  induction ps as [|p ps IH]; simpl; [reflexivity|]. rewrite andb_true_iff. intros [Hp Hps].
+  rewrite (IH Hps). unfold default_ok in Hp.
+  destruct (p_ty p); destruct (p_def p) as [[]|]; try discriminate; reflexivity.
+Qed.
+
 Section Pass1.
   Variable F : family.
   Variable rec : mode -> str -> option value -> input -> res value.
@@ -256,14 +348,16 @@ Section Pass1.
     - rewrite forallb_forall in *. intros q Hq. apply ahas_aset. apply H2. exact Hq.
   Qed.
 
-  Lemma parse_ia_p1 ps base : (forall k, nonspec (aget k base)) ->
+  Lemma parse_ia_p1 ps base : forallb default_ok ps = true -> (forall k, nonspec (aget k base)) ->
     forall kvs acc ia, ia_inv ps acc ->
     parse_ia rec with_defaults ps base kvs acc = Ok ia -> ia_inv ps ia.
   Proof.
-    intros Hb. induction kvs as [|[k r] kvs IH]; simpl; intros acc ia Hacc H.
+    intros Hd Hb. induction kvs as [|[k r] kvs IH]; simpl; intros acc ia Hacc H.
     - inversion H; subst. exact Hacc.
     - destruct (find_param ps k) as [p|] eqn:Fp; [|discriminate].
       apply bind_Ok in H. destruct H as [v [Hv H]].
+      rewrite prev_or_default_wf in Hv
+        by (rewrite forallb_forall in Hd; apply Hd; apply (find_param_some _ _ _ Fp)).
       apply adapt_param_p1 in Hv; [|apply Hb].
       rewrite merge_val_nonspec in H by apply Hb.
       eapply IH; [|exact H]. eapply ia_inv_aset; eassumption.
@@ -317,10 +411,11 @@ Section Pass1.
     ps_wf ps -> target F cpn = Some (k, ps) -> is_subclass F (c_name k) base = true ->
     adapt_dict rec with_defaults ps cpn same [] [] kvs dk = Ok v -> good F base v = true.
   Proof.
-    intros Hps Ht Hs. unfold adapt_dict. simpl m_defaults. simpl m_strict. cbv iota. rewrite aupdate_nil.
+    intros Hps Ht Hs. unfold adapt_dict. simpl m_defaults. simpl m_strict. cbv iota.
+    rewrite (defaults_of_rec_wf rec with_defaults ps (proj1 Hps)), bind_ret, aupdate_nil.
     intro H. apply bind_Ok in H. destruct H as [ia [Hia H]]. simpl in H.
     apply bind_Ok in H. destruct H as [dkv [Hdk H]]. inversion H; subst v. clear H.
-    apply parse_ia_p1 in Hia; [|apply defaults_nonspec; exact Hps|apply defaults_inv; exact Hps].
+    apply parse_ia_p1 in Hia; [|exact (proj1 Hps)|apply defaults_nonspec; exact Hps|apply defaults_inv; exact Hps].
     destruct Hia as [H1 H2]. rewrite good_eq, Ht, Hs, H1, H2. simpl.
     apply simple_values_keys in Hdk.
     assert (K : forall kv : str * value, In (fst kv) (map fst dkv) ->
@@ -399,9 +494,9 @@ Proof.
   apply bind_Ok in H. destruct H as [q [Hq H]].
   apply bind_Ok in H. destruct H as [cp1 [Hc H]].
   apply bind_Ok in H. destruct H as [[cpn ps] [Hi H]]. simpl fst in H. simpl snd in H.
-  apply check_import_ok in Hi; [|exact Hwf]. destruct Hi as [-> [Hps [k [Ht Hs]]]].
+  apply check_import_ok in Hi; [|exact Hwf]. destruct Hi as [Hps [k [_ [Ht Hs]]]].
   destruct (as_ns_raw _ _ _ Hq) as [kvs Hk]. rewrite Hk in H.
-  destruct (prev_parts_nonspec F (adapt F rs n) ps cp1 base prev Hp) as [E1 E2].
+  destruct (prev_parts_nonspec F (adapt F rs n) ps cpn base prev Hp) as [E1 E2].
   rewrite E1, E2 in H.
   eapply adapt_dict_p1; [| exact Hps | exact Ht | exact Hs | exact H].
   intros c prev' r' v' Hp' H'. eapply IH; eassumption.
@@ -451,7 +546,7 @@ Qed.
 Lemma parse_ia_each rec m ps base : forall kvs acc ia,
   parse_ia rec m ps base kvs acc = Ok ia ->
   forall kr, In kr kvs -> exists p v, find_param ps (fst kr) = Some p /\
-                                      adapt_param rec m (p_ty p) (aget (fst kr) base) (snd kr) = Ok v.
+      adapt_param rec m (p_ty p) (prev_or_default m p (aget (fst kr) base)) (snd kr) = Ok v.
 Proof.
   induction kvs as [|[k r] kvs IH]; simpl; intros acc ia H kr Hin; [destruct Hin|].
   destruct (find_param ps k) as [p|] eqn:Fp; [|discriminate].
@@ -509,10 +604,10 @@ Proof.
   rewrite (resolve_name_dotted F base' cp Hd) in H.
   apply bind_Ok in H. destruct H as [cp1 [Hc H]]. inversion Hc; subst cp1; clear Hc.
   apply bind_Ok in H. destruct H as [[cpn ps'] [Hi H]]. simpl fst in H. simpl snd in H.
-  apply check_import_ok in Hi; [|exact Hwf]. destruct Hi as [-> [Hps [k' [Ht' _]]]].
+  apply check_import_ok in Hi; [|exact Hwf]. destruct Hi as [Hps [k' [Ht' _]]].
   rewrite Ht in Ht'. inversion Ht'; subst k' ps'. clear Ht'.
   unfold adapt_dict in H. rewrite (filter_params_clean ps dk Gd) in H. rewrite aupdate_nil in H.
-  simpl m_defaults in H. cbv iota in H.
+  simpl m_defaults in H. cbv iota in H. rewrite bind_ret in H.
   apply bind_Ok in H. destruct H as [ia' [Hia _]].
   rewrite valid_eq, Ht, Gs, Gd, andb_true_r. simpl. apply andb_true_iff. split.
   - rewrite forallb_forall in *. intros kv Hin.
@@ -568,7 +663,8 @@ Definition x_fam : family :=
          {| c_name := x_Top; c_parents := []; c_abstract := false; c_varkw := false;
             c_params := [ {| p_name := x_mid; p_ty := POpt x_Mid; p_def := Some VNull |} ] |} ];
      fam_funcs := [];
-     fam_consts := [[75;48]%N] |}.
+     fam_consts := [[75;48]%N];
+     fam_subs := []; fam_exports := [] |}.
 (* --x.mid=Mid --x.mid.d=7 *)
 Definition x_steps_ok : list input :=
   [INested [x_mid] (RStr x_Mid); INested [x_mid; [100]%N] (RInt 7)].
@@ -724,15 +820,9 @@ Proof.
   intro H; inversion H; subst. exists k. repeat split; reflexivity.
 Qed.
 
-Lemma lookup_cls F nm k : lookup_name F nm = Some (ICls k) -> find_cls F nm = Some k.
-Proof.
-  unfold lookup_name. destruct (find_cls F nm); [congruence|].
-  destruct (find_fun F nm); [discriminate|]. destruct (mem_str nm (fam_consts F)); discriminate.
-Qed.
-
 Lemma import_cls_find F cp k : import_obj F cp = Some (ICls k) -> find_cls F (c_name k) = Some k.
 Proof.
-  intro H. apply import_obj_inv in H. destruct H as [nm [_ [_ L]]]. apply lookup_cls in L.
+  intro H. apply import_obj_lookup in H. destruct H as [nm L]. apply lookup_cls in L.
   destruct (find_cls_some _ _ _ L) as [-> _]. exact L.
 Qed.
 
@@ -803,9 +893,6 @@ Lemma depth_child (k : str) (x : value) (ia : list (str * value)) : In (k, x) ia
 Proof.
   induction ia as [|kv ia IH]; simpl; [tauto|]. intros [->|H]; simpl; [lia|]. specialize (IH H). lia.
 Qed.
-
-Lemma bind_ret {A B} (a : A) (f : A -> res B) : bind (Ok a) f = f a.
-Proof. reflexivity. Qed.
 
 Lemma inst_args_complete rec ia :
   (forall kv, In kv ia -> forall log, exists a log', rec (snd kv) log = Ok (a, log')) ->
@@ -896,7 +983,7 @@ Proof.
     apply andb_true_iff in Hk. destruct Hk as [Hdk _]. destruct dk as [|d dk]; [|discriminate].
     assert (Ekw : kw = args) by reflexivity.
     assert (Hf : In f (fam_funcs F)).
-    { apply import_obj_inv in E. destruct E as [nm [_ [_ L]]]. unfold lookup_name in L.
+    { apply import_obj_lookup in E. destruct E as [nm L]. unfold lookup_name in L.
       destruct (find_cls F nm); [discriminate|]. destruct (find_fun F nm) as [f'|] eqn:Ff.
       - inversion L; subst f'. apply find_fun_some in Ff. tauto.
       - destruct (mem_str nm (fam_consts F)); discriminate. }
@@ -952,9 +1039,6 @@ Proof.
   - destruct H as [H1 [H2 H3]]. unfold bind at 1 3. rewrite H1, H2, H3. reflexivity.
   - subst e'. reflexivity.
 Qed.
-
-Lemma path_of_has_dot F nm : has_dot (path_of F nm) = true.
-Proof. unfold path_of. rewrite !has_dot_app. simpl. rewrite orb_true_r. reflexivity. Qed.
 
 Lemma resolve_short_same F base s : resolve_name F base (resolve_short F base s) = resolve_name F base s.
 Proof.
